@@ -65,6 +65,8 @@ type Engine struct {
 	specSt    *State
 	curReplay *replayInfo
 	errSites  map[string]string
+	lockIDs   map[string]int
+	callsiteHit map[string]bool
 	recDefs   map[string]string // declare-fun line -> define-fun-rec line of recursive spec functions
 	recInfo   []recFun
 	inlineCount int
